@@ -263,8 +263,33 @@ def run(ctx):
     selection.rule_target_obligations(ctx, 'C09')
     selection.next_obligations(ctx, 'C09')
     stepiter_obligation(ctx)
+    # rules that iterate hash-ordered sets with early exits: the offered target set must not depend on the order
+    for n in RS.registry():
+        lg = RS.registry()(n); funcs = {}
+        for r in c01.identity_order_obligations(lg, funcs, 'C09'):
+            if r.name.endswith('.order-insensitive') or r.status == 'unknown': ctx.add_result(r)
+        ctx.functions.update(funcs)
+    ctx.replayers['C09.identity.'] = replay_identity_order
     bounded_search_independence(ctx)
     ctx.replayers['C09.'] = lambda r: dict(reproduced=None, detail='see counterexample / meta')
+
+def replay_identity_order(r):
+    "the two premise presentations of  Fm, m=n, n=m |- Fn  under hook-seeded hash orders on the real prover"
+    import subprocess, sys, os, json as _json
+    L = r.meta.get('logic')
+    code = ("import sys, json\nfrom pytableaux.lang import Argument\nfrom pytableaux.proof import Tableau\n"
+            "out = {}\n"
+            "for a in ('Fn:Fm:Imn:Inm', 'Fn:Imn:Inm:Fm', 'Fn:Imn:Imn:Fm', 'Fn:Inm:Fm:Imn'):\n"
+            "    t = Tableau(sys.argv[1], Argument(a)).build(); out[a] = bool(t.valid)\n"
+            "print(json.dumps(out))\n")
+    seen = {}
+    for order in range(6):
+        env = dict(os.environ, PYTABLEAUX_VERIF='1', PYTABLEAUX_VERIF_ORDER=str(order))
+        p = subprocess.run([sys.executable, '-c', code, L], capture_output=True, text=True, env=env)
+        if p.returncode != 0: return dict(reproduced=None, detail='replay run failed: ' + p.stderr[-200:])
+        for a, v in _json.loads(p.stdout).items(): seen.setdefault(a, set()).add(v)
+    bad = {a: sorted(v) for a, v in seen.items() if v != {True}}
+    return dict(reproduced=bool(bad), detail=f'{L}: Fm, m=n, n=m |- Fn (valid) in four premise presentations under 6 hook-seeded hash orders: verdicts other than valid: {bad}')
 
 def replay(payload):
     if payload.get('kind') == 'bounded':
